@@ -49,6 +49,8 @@ theorem lt_of_getElem?_eq_some {α} {l : List α} {i : Nat} {a : α} (h : l[i]? 
   by_cases h : s.active - 1 = -1 <;> simp [activeDone, h]
 @[simp] theorem activeDone_tasks (s : St) : (activeDone s).tasks = s.tasks := by
   by_cases h : s.active - 1 = -1 <;> simp [activeDone, h]
+@[simp] theorem activeDone_origin (s : St) : (activeDone s).origin = s.origin := by
+  by_cases h : s.active - 1 = -1 <;> simp [activeDone, h]
 @[simp] theorem activeDone_downs (s : St) : (activeDone s).downs = s.downs := by
   by_cases h : s.active - 1 = -1 <;> simp [activeDone, h]
 @[simp] theorem activeDone_ctxCancelled (s : St) : (activeDone s).ctxCancelled = s.ctxCancelled := by
@@ -153,14 +155,17 @@ theorem step_serveCount {H : Hash} {cfg : Cfg} {s s' : St} {i : Nat}
 
 theorem step_serveRecv {H : Hash} {cfg : Cfg} {s s' : St} {i peer : Nat} {d : Bytes}
     (h : step H cfg s (.serveRecv i peer d) = some s') :
-    s.serves[i]? = some .running ∧
-    s' = { s with tasks := s.tasks ++ [⟨i, .spawned (classify H cfg peer d)⟩], active := s.active + 1 } := by
+    s.serves[i]? = some .running ∧ s.connClosed.getD (s.connOf.getD i 0) 0 = 0 ∧
+    s' = { s with tasks := s.tasks ++ [⟨i, .spawned (classify H cfg peer d)⟩],
+                  origin := s.origin ++ [⟨i, peer, d⟩],
+                  log := s.log ++ [.recv s.tasks.length i peer d],
+                  active := s.active + 1 } := by
   simp only [step] at h
   split at h
   · next hs =>
     split at h
     · cases h
-    · exact ⟨hs, (Option.some.inj h).symm⟩
+    · next hc => exact ⟨hs, by omega, (Option.some.inj h).symm⟩
   · cases h
 
 /-- a running Serve call returns with result `r`: the deferred cleanup (unregister, `activeDone`) -/
@@ -212,7 +217,8 @@ theorem step_taskRun {H : Hash} {cfg : Cfg} {s s' : St} {t : Nat}
     ((∃ key p, fate = .handle key p ∧ key ∉ s.inflight.getD i [] ∧
         s' = { s with tasks := s.tasks.set t ⟨i, .inHandler key⟩,
                       inflight := s.inflight.set i (key :: s.inflight.getD i []),
-                      log := s.log ++ [.handlerStart t key] }) ∨
+                      log := s.log ++ [.request t p (s.peerOf t) (s.connOf.getD i 0) .server,
+                                       .handlerStart t key] }) ∨
      ((¬ ∃ key p, fate = .handle key p ∧ key ∉ s.inflight.getD i []) ∧
         s' = activeDone { s with tasks := s.tasks.set t ⟨i, .done⟩, log := s.log ++ [.dropped t] })) := by
   simp only [step] at h
@@ -246,6 +252,15 @@ theorem step_taskFinish {H : Hash} {cfg : Cfg} {s s' : St} {t : Nat}
       s' = activeDone { s with tasks := s.tasks.set t ⟨i, .done⟩,
                                inflight := s.inflight.set i ((s.inflight.getD i []).erase key),
                                log := s.log ++ [.handlerEnd t] } := by
+  simp only [step] at h
+  split at h
+  · next i key hs => exact ⟨i, key, hs, (Option.some.inj h).symm⟩
+  · cases h
+
+theorem step_taskReply {H : Hash} {cfg : Cfg} {s s' : St} {t : Nat}
+    (h : step H cfg s (.taskReply t) = some s') :
+    ∃ i key, s.tasks[t]? = some ⟨i, .inHandler key⟩ ∧
+      s' = { s with log := s.log ++ [.reply t (s.connOf.getD i 0) (s.peerOf t)] } := by
   simp only [step] at h
   split at h
   · next i key hs => exact ⟨i, key, hs, (Option.some.inj h).symm⟩
@@ -321,6 +336,8 @@ theorem step_ctxExpire {H : Hash} {cfg : Cfg} {s s' : St} {j : Nat}
 @[simp] theorem serveLeave_inflight (s : St) (i : Nat) (r : ServeRes) :
     (serveLeave s i r).inflight = s.inflight := by simp [serveLeave]
 @[simp] theorem serveLeave_tasks (s : St) (i : Nat) (r : ServeRes) : (serveLeave s i r).tasks = s.tasks := by
+  simp [serveLeave]
+@[simp] theorem serveLeave_origin (s : St) (i : Nat) (r : ServeRes) : (serveLeave s i r).origin = s.origin := by
   simp [serveLeave]
 @[simp] theorem serveLeave_downs (s : St) (i : Nat) (r : ServeRes) : (serveLeave s i r).downs = s.downs := by
   simp [serveLeave]
@@ -477,7 +494,7 @@ theorem InvG_ctxExpire {H cfg s s' j} (h : InvG s) (hs : step H cfg s (.ctxExpir
 
 theorem InvG_serveRecv {H cfg s s' i peer d} (h : InvG s)
     (hs : step H cfg s (.serveRecv i peer d) = some s') : InvG s' := by
-  obtain ⟨hrun, rfl⟩ := step_serveRecv hs
+  obtain ⟨hrun, _, rfl⟩ := step_serveRecv hs
   have hi : i < s.serves.length := lt_of_getElem?_eq_some hrun
   have old : ∀ (t : Nat) (i' : Nat) (k : Key),
       (s.tasks ++ [(⟨i, .spawned (classify H cfg peer d)⟩ : Task)])[t]? = some (⟨i', .inHandler k⟩ : Task) →
@@ -503,7 +520,8 @@ theorem InvG_serveRecv {H cfg s s' i peer d} (h : InvG s)
   · intro t t' i' k h1 h2
     exact h.uniq t t' i' k (old _ _ _ h1) (old _ _ _ h2)
   · intro t k hm
-    obtain ⟨i', h1 | h1⟩ := h.log t k hm
+    have hm' : Event.handlerStart t k ∈ s.log := by simpa using hm
+    obtain ⟨i', h1 | h1⟩ := h.log t k hm'
     · exact ⟨i', Or.inl (new _ _ h1)⟩
     · exact ⟨i', Or.inr (new _ _ h1)⟩
 
@@ -562,7 +580,8 @@ theorem InvG_taskEnter {s : St} {t i : Nat} {key : Key} {p : Packet} (h : InvG s
     (hk : key ∉ s.inflight.getD i []) :
     InvG { s with tasks := s.tasks.set t ⟨i, .inHandler key⟩,
                   inflight := s.inflight.set i (key :: s.inflight.getD i []),
-                  log := s.log ++ [.handlerStart t key] } := by
+                  log := s.log ++ [.request t p (s.peerOf t) (s.connOf.getD i 0) .server,
+                                   .handlerStart t key] } := by
   have htl := lt_of_getElem?_eq_some ht
   have hil : i < s.inflight.length := by rw [h.len]; exact h.bound t _ ht
   have hnew : (s.tasks.set t (⟨i, .inHandler key⟩ : Task))[t]? = some ⟨i, .inHandler key⟩ := by
@@ -612,7 +631,7 @@ theorem InvG_taskEnter {s : St} {t i : Nat} {key : Key} {p : Packet} (h : InvG s
     · cases he2; exact absurd ((h.mem i key).mpr ⟨t1, he1⟩) hk
     · exact h.uniq t1 t2 i' k he1 he2
   · intro t' k hm
-    simp only [List.mem_append, List.mem_singleton] at hm
+    simp only [List.mem_append, List.mem_cons, List.mem_nil_iff, or_false, reduceCtorEq, false_or] at hm
     rcases hm with hm | hm
     · obtain ⟨i', h1 | h1⟩ := h.log t' k hm
       · exact ⟨i', Or.inl (hold t' _ (hnot _ _ _ h1) h1)⟩
@@ -693,6 +712,11 @@ theorem InvG_taskFinish {H cfg s s' t} (h : InvG s) (hs : step H cfg s (.taskFin
       · exact ⟨i', Or.inl (hold t' _ htt h1)⟩
       · exact ⟨i', Or.inr (hold t' _ htt h1)⟩
 
+theorem InvG_taskReply {H cfg s s' t} (h : InvG s) (hs : step H cfg s (.taskReply t) = some s') : InvG s' := by
+  obtain ⟨i, key, _, rfl⟩ := step_taskReply hs
+  refine h.of_same rfl rfl rfl ?_ h.ctx
+  intro t k; simp
+
 theorem InvG_step {H cfg s s'} (l : Label) (h : InvG s) (hs : step H cfg s l = some s') : InvG s' := by
   cases l with
   | serveEnter i => exact InvG_serveEnter h hs
@@ -702,6 +726,7 @@ theorem InvG_step {H cfg s s'} (l : Label) (h : InvG s) (hs : step H cfg s l = s
   | serveReadFail i k => exact InvG_serveReadFail h hs
   | taskRun t => exact InvG_taskRun h hs
   | taskFinish t => exact InvG_taskFinish h hs
+  | taskReply t => exact InvG_taskReply h hs
   | downEnter j => exact InvG_downEnter h hs
   | downReturnNil j => exact InvG_downReturnNil h hs
   | downReturnCtx j => exact InvG_downReturnCtx h hs
@@ -943,11 +968,11 @@ theorem live_pos {s : St} {t : Nat} {a : Task} (h : s.tasks[t]? = some a) (ha : 
 
 theorem InvF_serveRecv {H cfg s s' i peer d} (h : InvF s)
     (hs : step H cfg s (.serveRecv i peer d) = some s') : InvF s' := by
-  obtain ⟨hrun, rfl⟩ := step_serveRecv hs
+  obtain ⟨hrun, _, rfl⟩ := step_serveRecv hs
   have hpos := counted_pos hrun
-  have hl : liveTasks { s with tasks := s.tasks ++ [⟨i, .spawned (classify H cfg peer d)⟩], active := s.active + 1 } = liveTasks s + 1 := by
+  have hl : liveTasks { s with tasks := s.tasks ++ [⟨i, .spawned (classify H cfg peer d)⟩], origin := s.origin ++ [⟨i, peer, d⟩], log := s.log ++ [.recv s.tasks.length i peer d], active := s.active + 1 } = liveTasks s + 1 := by
     simp [liveTasks, List.filter_append]
-  have hcs : countedServes { s with tasks := s.tasks ++ [⟨i, .spawned (classify H cfg peer d)⟩], active := s.active + 1 } = countedServes s := rfl
+  have hcs : countedServes { s with tasks := s.tasks ++ [⟨i, .spawned (classify H cfg peer d)⟩], origin := s.origin ++ [⟨i, peer, d⟩], log := s.log ++ [.recv s.tasks.length i peer d], active := s.active + 1 } = countedServes s := rfl
   have hact := h.act
   have hcl2 := h.cl2
   have hcl1 := h.cl1
@@ -1072,9 +1097,9 @@ theorem InvF_taskRun {H cfg s s' t} (h : InvF s) (hs : step H cfg s (.taskRun t)
   · obtain ⟨key, p, rfl, hk, rfl⟩ := hh
     have hc := live_set ⟨i, .inHandler key⟩ ht
     simp at hc
-    have hls : liveTasks { s with tasks := s.tasks.set t ⟨i, .inHandler key⟩, inflight := s.inflight.set i (key :: s.inflight.getD i []), log := s.log ++ [.handlerStart t key] } = liveTasks s := by
+    have hls : liveTasks { s with tasks := s.tasks.set t ⟨i, .inHandler key⟩, inflight := s.inflight.set i (key :: s.inflight.getD i []), log := s.log ++ [.request t p (s.peerOf t) (s.connOf.getD i 0) .server, .handlerStart t key] } = liveTasks s := by
       simp only [liveTasks]; exact hc
-    have hcs : countedServes { s with tasks := s.tasks.set t ⟨i, .inHandler key⟩, inflight := s.inflight.set i (key :: s.inflight.getD i []), log := s.log ++ [.handlerStart t key] } = countedServes s := rfl
+    have hcs : countedServes { s with tasks := s.tasks.set t ⟨i, .inHandler key⟩, inflight := s.inflight.set i (key :: s.inflight.getD i []), log := s.log ++ [.request t p (s.peerOf t) (s.connOf.getD i 0) .server, .handlerStart t key] } = countedServes s := rfl
     refine ⟨h.lenC, h.lenL, h.connB, h.noReg, ?_, h.cl1, ?_, h.sdc, h.nsd, h.cnt, h.nil⟩
     · rw [hls, hcs]; exact h.act
     · rw [hls, hcs]; exact h.cl2
@@ -1141,6 +1166,10 @@ theorem InvF_ctxExpire {H cfg s s' j} (h : InvF s) (hs : step H cfg s (.ctxExpir
   intro c hc; cases hc
   exact h.nil j false hd
 
+theorem InvF_taskReply {H cfg s s' t} (h : InvF s) (hs : step H cfg s (.taskReply t) = some s') : InvF s' := by
+  obtain ⟨i, key, _, rfl⟩ := step_taskReply hs
+  exact ⟨h.lenC, h.lenL, h.connB, h.noReg, h.act, h.cl1, h.cl2, h.sdc, h.nsd, h.cnt, h.nil⟩
+
 theorem InvF_step {H cfg s s'} (hv : cfg.variant = .fixed) (l : Label) (h : InvF s)
     (hs : step H cfg s l = some s') : InvF s' := by
   cases l with
@@ -1151,6 +1180,7 @@ theorem InvF_step {H cfg s s'} (hv : cfg.variant = .fixed) (l : Label) (h : InvF
   | serveReadFail i k => exact InvF_serveReadFail h hs
   | taskRun t => exact InvF_taskRun h hs
   | taskFinish t => exact InvF_taskFinish h hs
+  | taskReply t => exact InvF_taskReply h hs
   | downEnter j => exact InvF_downEnter h hs
   | downReturnNil j => exact InvF_downReturnNil h hs
   | downReturnCtx j => exact InvF_downReturnCtx h hs
@@ -1217,6 +1247,10 @@ theorem Drained_step {H cfg s s'} (l : Label) (h : Drained s) (hs : step H cfg s
     cases this
   | taskFinish t =>
     obtain ⟨i, key, ht, _⟩ := step_taskFinish hs
+    have := h.tasks _ (List.mem_of_getElem? ht)
+    cases this
+  | taskReply t =>
+    obtain ⟨i, key, ht, _⟩ := step_taskReply hs
     have := h.tasks _ (List.mem_of_getElem? ht)
     cases this
   | downEnter j =>
@@ -1634,5 +1668,1149 @@ theorem dropped_otherwise_false :
   cases hs
   revert hl
   decide
+
+
+/-! ### the trace: which events a step appends, and where an event of the log came from -/
+
+/-- the events a step with label `l` may append to the log, given the state `s` it is taken in -/
+def NewEv (s : St) : Label → Event → Prop
+  | .serveEnter i, e => e = .serveReturned i
+  | .serveCount _, _ => False
+  | .serveRecv i peer d, e => e = .recv s.tasks.length i peer d
+  | .serveReadErr i, e => e = .serveReturned i ∨ e = .doubleClose
+  | .serveReadFail i _, e => e = .serveReturned i ∨ e = .doubleClose
+  | .taskRun t, e => e = .dropped t ∨ e = .doubleClose ∨
+      ∃ i key p, s.tasks[t]? = some (⟨i, .spawned (.handle key p)⟩ : Task) ∧ key ∉ s.inflight.getD i [] ∧
+        (e = .request t p (s.peerOf t) (s.connOf.getD i 0) .server ∨ e = .handlerStart t key)
+  | .taskFinish t, e => e = .handlerEnd t ∨ e = .doubleClose
+  | .taskReply t, e => ∃ i key, s.tasks[t]? = some (⟨i, .inHandler key⟩ : Task) ∧
+      e = .reply t (s.connOf.getD i 0) (s.peerOf t)
+  | .downEnter _, e => (∃ c, e = .listenerClosed c) ∨ e = .doubleClose
+  | .downReturnNil j, e => e = .downReturned j .nil
+  | .downReturnCtx j, e => e = .downReturned j .ctxErr
+  | .ctxExpire _, _ => False
+
+theorem activeDone_log_append (s : St) :
+    ∃ evs, (activeDone s).log = s.log ++ evs ∧ ∀ e ∈ evs, e = Event.doubleClose := by
+  rcases activeDone_log s with h | h
+  · exact ⟨[], by simp [h], by simp⟩
+  · exact ⟨[.doubleClose], h, by simp⟩
+
+/-- every step appends to the log, and only events that `NewEv` lists -/
+theorem step_log {H : Hash} {cfg : Cfg} {s s' : St} {l : Label} (h : step H cfg s l = some s') :
+    ∃ evs, s'.log = s.log ++ evs ∧ ∀ e ∈ evs, NewEv s l e := by
+  cases l with
+  | serveEnter i =>
+    obtain ⟨_, hh | hh | hh⟩ := step_serveEnter h
+    · obtain ⟨_, rfl⟩ := hh; exact ⟨[.serveReturned i], rfl, by simp [NewEv]⟩
+    · obtain ⟨_, _, rfl⟩ := hh; exact ⟨[], by simp, by simp⟩
+    · obtain ⟨_, _, rfl⟩ := hh; exact ⟨[], by simp, by simp⟩
+  | serveCount i =>
+    obtain ⟨_, rfl⟩ := step_serveCount h; exact ⟨[], by simp, by simp⟩
+  | serveRecv i peer d =>
+    obtain ⟨_, _, rfl⟩ := step_serveRecv h
+    exact ⟨[.recv s.tasks.length i peer d], rfl, by simp [NewEv]⟩
+  | serveReadErr i =>
+    obtain ⟨_, _, _, rfl⟩ := step_serveReadErr h
+    obtain ⟨evs, he, hd⟩ := activeDone_log_append
+      { s with serves := s.serves.set i (.returned .errShutdown),
+               listeners := s.listeners.set (s.connOf.getD i 0) (s.listeners.getD (s.connOf.getD i 0) 0 - 1),
+               log := s.log ++ [.serveReturned i] }
+    refine ⟨.serveReturned i :: evs, he.trans (by simp), ?_⟩
+    intro e he'
+    rcases List.mem_cons.mp he' with rfl | hm
+    · left; rfl
+    · right; exact hd e hm
+  | serveReadFail i k =>
+    have leave : ∀ r, ∃ evs, (serveLeave s i r).log = s.log ++ evs ∧ ∀ e ∈ evs, NewEv s (.serveReadFail i k) e := by
+      intro r
+      obtain ⟨evs, he, hd⟩ := activeDone_log_append
+        { s with serves := s.serves.set i (.returned r),
+                 listeners := s.listeners.set (s.connOf.getD i 0) (s.listeners.getD (s.connOf.getD i 0) 0 - 1),
+                 log := s.log ++ [.serveReturned i] }
+      refine ⟨.serveReturned i :: evs, he.trans (by simp), ?_⟩
+      intro e he'
+      rcases List.mem_cons.mp he' with rfl | hm
+      · left; rfl
+      · right; exact hd e hm
+    obtain ⟨_, hh | hh | hh⟩ := step_serveReadFail h
+    · obtain ⟨_, rfl⟩ := hh; exact leave _
+    · obtain ⟨_, _, rfl⟩ := hh; exact leave _
+    · obtain ⟨_, _, rfl⟩ := hh; exact ⟨[], by simp, by simp⟩
+  | taskRun t =>
+    obtain ⟨i, fate, ht, hh | hh⟩ := step_taskRun h
+    · obtain ⟨key, p, rfl, hk, rfl⟩ := hh
+      refine ⟨[.request t p (s.peerOf t) (s.connOf.getD i 0) .server, .handlerStart t key], rfl, ?_⟩
+      intro e he
+      right; right
+      refine ⟨i, key, p, ht, hk, ?_⟩
+      simpa using he
+    · obtain ⟨_, rfl⟩ := hh
+      obtain ⟨evs, he, hd⟩ := activeDone_log_append
+        { s with tasks := s.tasks.set t ⟨i, .done⟩, log := s.log ++ [.dropped t] }
+      refine ⟨.dropped t :: evs, he.trans (by simp), ?_⟩
+      intro e he'
+      rcases List.mem_cons.mp he' with rfl | hm
+      · left; rfl
+      · right; left; exact hd e hm
+  | taskFinish t =>
+    obtain ⟨i, key, ht, rfl⟩ := step_taskFinish h
+    obtain ⟨evs, he, hd⟩ := activeDone_log_append
+      { s with tasks := s.tasks.set t ⟨i, .done⟩,
+               inflight := s.inflight.set i ((s.inflight.getD i []).erase key),
+               log := s.log ++ [.handlerEnd t] }
+    refine ⟨.handlerEnd t :: evs, he.trans (by simp), ?_⟩
+    intro e he'
+    rcases List.mem_cons.mp he' with rfl | hm
+    · left; rfl
+    · right; exact hd e hm
+  | taskReply t =>
+    obtain ⟨i, key, ht, rfl⟩ := step_taskReply h
+    refine ⟨[.reply t (s.connOf.getD i 0) (s.peerOf t)], rfl, ?_⟩
+    intro e he
+    exact ⟨i, key, ht, by simpa using he⟩
+  | downEnter j =>
+    obtain ⟨c, _, hh | hh⟩ := step_downEnter h
+    · obtain ⟨_, rfl⟩ := hh; exact ⟨[], by simp, by simp⟩
+    · obtain ⟨_, rfl⟩ := hh
+      obtain ⟨evs, he, hd⟩ := activeDone_log_append
+        { s with downs := s.downs.set j ⟨.waiting, c⟩, sd := true, ctxCancelled := true,
+                 connClosed := (List.range s.connClosed.length).map
+                   (fun c => s.connClosed.getD c 0 + (if s.listeners.getD c 0 > 0 then 1 else 0)),
+                 log := s.log ++ ((List.range s.listeners.length).filter
+                   (fun c => s.listeners.getD c 0 > 0)).map .listenerClosed }
+      refine ⟨((List.range s.listeners.length).filter (fun c => s.listeners.getD c 0 > 0)).map .listenerClosed ++ evs,
+        he.trans (by simp), ?_⟩
+      intro e he'
+      rcases List.mem_append.mp he' with hm | hm
+      · obtain ⟨c, _, rfl⟩ := List.mem_map.mp hm
+        left; exact ⟨c, rfl⟩
+      · right; exact hd e hm
+  | downReturnNil j =>
+    obtain ⟨c, _, _, rfl⟩ := step_downReturnNil h
+    exact ⟨[.downReturned j .nil], rfl, by simp [NewEv]⟩
+  | downReturnCtx j =>
+    obtain ⟨_, rfl⟩ := step_downReturnCtx h
+    exact ⟨[.downReturned j .ctxErr], rfl, by simp [NewEv]⟩
+  | ctxExpire j =>
+    obtain ⟨pc, _, rfl⟩ := step_ctxExpire h; exact ⟨[], by simp, by simp⟩
+
+theorem step_log_mono {H : Hash} {cfg : Cfg} {s s' : St} {l : Label} (h : step H cfg s l = some s')
+    (e : Event) (he : e ∈ s.log) : e ∈ s'.log := by
+  obtain ⟨evs, hl, _⟩ := step_log h
+  rw [hl]; exact List.mem_append_left _ he
+
+theorem run_log_mono (H : Hash) (cfg : Cfg) (e : Event) :
+    ∀ (ls : List Label) (s : St), e ∈ s.log → e ∈ (run H cfg s ls).log := by
+  intro ls
+  induction ls with
+  | nil => intro s h; exact h
+  | cons l ls ih =>
+    intro s h
+    simp only [run]
+    split
+    · next s' hs => exact ih s' (step_log_mono hs e h)
+    · exact ih s h
+
+/-- Provenance: an event of the log that was not there initially was appended by one step of the
+    schedule — the schedule splits at that step, the event is absent before it and `NewEv` holds. -/
+theorem log_provenance (H : Hash) (cfg : Cfg) (e : Event) :
+    ∀ (ls : List Label) (s0 : St), e ∈ (run H cfg s0 ls).log → e ∉ s0.log →
+      ∃ ls1 l ls2 s', ls = ls1 ++ l :: ls2 ∧ step H cfg (run H cfg s0 ls1) l = some s' ∧
+        e ∉ (run H cfg s0 ls1).log ∧ NewEv (run H cfg s0 ls1) l e := by
+  intro ls
+  induction ls with
+  | nil => intro s0 h hn; exact absurd h hn
+  | cons l ls ih =>
+    intro s0 h hn
+    simp only [run] at h
+    split at h
+    · next s' hs =>
+      by_cases hm : e ∈ s'.log
+      · obtain ⟨evs, hl, hev⟩ := step_log hs
+        rw [hl] at hm
+        rcases List.mem_append.mp hm with hm | hm
+        · exact absurd hm hn
+        · exact ⟨[], l, ls, s', rfl, hs, hn, hev e hm⟩
+      · obtain ⟨ls1, l', ls2, s'', he, hst, hne, hnew⟩ := ih s' h hm
+        refine ⟨l :: ls1, l', ls2, s'', by simp [he], ?_, ?_, ?_⟩ <;> simp only [run, hs] <;> assumption
+    · next hs =>
+      obtain ⟨ls1, l', ls2, s'', he, hst, hne, hnew⟩ := ih s0 h hn
+      refine ⟨l :: ls1, l', ls2, s'', by simp [he], ?_, ?_, ?_⟩ <;> simp only [run, hs] <;> assumption
+
+
+/-! ### the origin invariant: who spawned a goroutine, what it was handed, where its replies go -/
+
+def isRecv : Event → Bool
+  | .recv .. => true
+  | _ => false
+
+/-- the events the origin invariant speaks about -/
+def isTraced : Event → Bool
+  | .recv .. | .handlerStart .. | .request .. | .reply .. => true
+  | _ => false
+
+/-- the `recv` event of task `t` with origin `o` -/
+def recvOf (t : Nat) (o : Origin) : Event := .recv t o.serve o.peer o.dgram
+
+structure InvO (H : Hash) (cfg : Cfg) (s : St) : Prop where
+  len : s.origin.length = s.tasks.length
+  serve : ∀ (t : Nat) (tk : Task) (o : Origin), s.tasks[t]? = some tk → s.origin[t]? = some o → tk.serve = o.serve
+  fate : ∀ (t i : Nat) (f : Fate) (o : Origin), s.tasks[t]? = some (⟨i, .spawned f⟩ : Task) →
+    s.origin[t]? = some o → f = classify H cfg o.peer o.dgram
+  hand : ∀ (t i : Nat) (key : Key) (o : Origin), s.tasks[t]? = some (⟨i, .inHandler key⟩ : Task) →
+    s.origin[t]? = some o → ∃ p, classify H cfg o.peer o.dgram = .handle key p
+  inH : ∀ (t i : Nat) (key : Key), s.tasks[t]? = some (⟨i, .inHandler key⟩ : Task) → Event.handlerStart t key ∈ s.log
+  recvs : s.log.filter isRecv = s.origin.mapIdx recvOf
+  hs : ∀ (t : Nat) (key : Key), Event.handlerStart t key ∈ s.log →
+    ∃ o p, s.origin[t]? = some o ∧ classify H cfg o.peer o.dgram = .handle key p ∧
+      Event.request t p o.peer (s.connOf.getD o.serve 0) .server ∈ s.log
+  req : ∀ (t : Nat) (p : Packet) (peer conn : Nat) (ctx : Ctx), Event.request t p peer conn ctx ∈ s.log →
+    ∃ o key, s.origin[t]? = some o ∧ classify H cfg o.peer o.dgram = .handle key p ∧
+      peer = o.peer ∧ conn = s.connOf.getD o.serve 0 ∧ ctx = .server ∧ Event.handlerStart t key ∈ s.log
+  rep : ∀ (t conn addr : Nat), Event.reply t conn addr ∈ s.log →
+    ∃ o key, s.origin[t]? = some o ∧ addr = o.peer ∧ conn = s.connOf.getD o.serve 0 ∧
+      Event.handlerStart t key ∈ s.log
+
+theorem InvO_initWith (H : Hash) (cfg : Cfg) (conns : List Nat) (nD : Nat) : InvO H cfg (initWith conns nD) := by
+  refine ⟨rfl, ?_, ?_, ?_, ?_, rfl, ?_, ?_, ?_⟩
+  · intro t tk o h; simp [initWith] at h
+  · intro t i f o h; simp [initWith] at h
+  · intro t i k o h; simp [initWith] at h
+  · intro t i k h; simp [initWith] at h
+  · intro t k h; simp [initWith] at h
+  · intro t p pe c x h; simp [initWith] at h
+  · intro t c a h; simp [initWith] at h
+
+/-- a new event that is either outside the invariant's vocabulary or a well-formed reply -/
+def GoodNew (s : St) (e : Event) : Prop :=
+  isTraced e = false ∨
+  ∃ (t conn addr : Nat) (o : Origin) (key : Key), e = .reply t conn addr ∧ s.origin[t]? = some o ∧ addr = o.peer ∧
+    conn = s.connOf.getD o.serve 0 ∧ Event.handlerStart t key ∈ s.log
+
+theorem mem_old_of_good {s : St} {evs : List Event} (hn : ∀ e ∈ evs, GoodNew s e) {e : Event}
+    (he : e ∈ s.log ++ evs) (ht : isTraced e = true) (hr : ∀ t c a, e ≠ .reply t c a) : e ∈ s.log := by
+  rcases List.mem_append.mp he with h | h
+  · exact h
+  · rcases hn e h with h1 | ⟨t, c, a, _, _, h1, _⟩
+    · rw [h1] at ht; cases ht
+    · exact absurd h1 (hr t c a)
+
+theorem InvO.of_same {H : Hash} {cfg : Cfg} {s s' : St} (h : InvO H cfg s)
+    (ho : s'.origin = s.origin) (hc : s'.connOf = s.connOf) (hlen : s'.tasks.length = s.tasks.length)
+    (htk : ∀ (t : Nat) (tk' : Task), s'.tasks[t]? = some tk' →
+      ∃ tk, s.tasks[t]? = some tk ∧ tk.serve = tk'.serve ∧ (tk'.pc = tk.pc ∨ tk'.pc = .done))
+    (hlog : ∃ evs, s'.log = s.log ++ evs ∧ ∀ e ∈ evs, GoodNew s e) : InvO H cfg s' := by
+  obtain ⟨evs, hl, hn⟩ := hlog
+  have lift : ∀ e, e ∈ s.log → e ∈ s'.log := by
+    intro e he; rw [hl]; exact List.mem_append_left _ he
+  refine ⟨by rw [ho, hlen]; exact h.len, ?_, ?_, ?_, ?_, ?_, ?_, ?_, ?_⟩
+  · intro t tk' o h1 h2
+    obtain ⟨tk, a, b, _⟩ := htk t tk' h1
+    rw [ho] at h2; rw [← b]; exact h.serve t tk o a h2
+  · intro t i f o h1 h2
+    obtain ⟨⟨i', pc⟩, a, b, c⟩ := htk t _ h1
+    simp only at b c
+    rcases c with c | c
+    · subst b; subst c; rw [ho] at h2; exact h.fate t i' f o a h2
+    · cases c
+  · intro t i k o h1 h2
+    obtain ⟨⟨i', pc⟩, a, b, c⟩ := htk t _ h1
+    simp only at b c
+    rcases c with c | c
+    · subst b; subst c; rw [ho] at h2; exact h.hand t i' k o a h2
+    · cases c
+  · intro t i k h1
+    obtain ⟨⟨i', pc⟩, a, b, c⟩ := htk t _ h1
+    simp only at b c
+    rcases c with c | c
+    · subst b; subst c; exact lift _ (h.inH t i' k a)
+    · cases c
+  · rw [hl, List.filter_append, ho, ← h.recvs]
+    have : evs.filter isRecv = [] := by
+      apply List.filter_eq_nil_iff.mpr
+      intro e he
+      rcases hn e he with h1 | ⟨t, c, a, _, _, h1, _⟩
+      · cases e <;> simp [isTraced, isRecv] at h1 ⊢
+      · subst h1; simp [isRecv]
+    rw [this]; simp
+  · intro t k hm
+    rw [hl] at hm
+    have hm' := mem_old_of_good hn hm rfl (by intro _ _ _ hh; cases hh)
+    obtain ⟨o, p, h1, h2, h3⟩ := h.hs t k hm'
+    exact ⟨o, p, by rw [ho]; exact h1, h2, by rw [hc]; exact lift _ h3⟩
+  · intro t p pe c x hm
+    rw [hl] at hm
+    have hm' := mem_old_of_good hn hm rfl (by intro _ _ _ hh; cases hh)
+    obtain ⟨o, k, h1, h2, h3, h4, h5, h6⟩ := h.req t p pe c x hm'
+    exact ⟨o, k, by rw [ho]; exact h1, h2, h3, by rw [hc]; exact h4, h5, lift _ h6⟩
+  · intro t c a hm
+    rw [hl] at hm
+    rcases List.mem_append.mp hm with hm' | hm'
+    · obtain ⟨o, k, h1, h2, h3, h4⟩ := h.rep t c a hm'
+      exact ⟨o, k, by rw [ho]; exact h1, h2, by rw [hc]; exact h3, lift _ h4⟩
+    · rcases hn _ hm' with h1 | ⟨t', c', a', o, k, h1, h2, h3, h4, h5⟩
+      · cases h1
+      · cases h1
+        exact ⟨o, k, by rw [ho]; exact h2, h3, by rw [hc]; exact h4, lift _ h5⟩
+
+theorem tasks_same (s : St) : ∀ (t : Nat) (tk' : Task), s.tasks[t]? = some tk' →
+    ∃ tk, s.tasks[t]? = some tk ∧ tk.serve = tk'.serve ∧ (tk'.pc = tk.pc ∨ tk'.pc = .done) :=
+  fun _ tk' h => ⟨tk', h, rfl, Or.inl rfl⟩
+
+theorem tasks_set_done {tasks : List Task} {t i : Nat} {pc : TaskPc} (ht : tasks[t]? = some (⟨i, pc⟩ : Task)) :
+    ∀ (t' : Nat) (tk' : Task), (tasks.set t ⟨i, .done⟩)[t']? = some tk' →
+    ∃ tk, tasks[t']? = some tk ∧ tk.serve = tk'.serve ∧ (tk'.pc = tk.pc ∨ tk'.pc = .done) := by
+  intro t' tk' hh
+  rcases getElem?_set_some hh with ⟨e, he, _⟩ | ⟨_, he⟩
+  · subst e; subst he; exact ⟨_, ht, rfl, Or.inr rfl⟩
+  · exact ⟨tk', he, rfl, Or.inl rfl⟩
+
+/-- the events of a step that does not touch the vocabulary of `InvO` -/
+theorem good_of_untraced {H : Hash} {cfg : Cfg} {s s' : St} {l : Label} (hs : step H cfg s l = some s')
+    (hu : ∀ e, NewEv s l e → isTraced e = false) :
+    ∃ evs, s'.log = s.log ++ evs ∧ ∀ e ∈ evs, GoodNew s e := by
+  obtain ⟨evs, hl, hn⟩ := step_log hs
+  exact ⟨evs, hl, fun e he => Or.inl (hu e (hn e he))⟩
+
+theorem peerOf_eq {s : St} {t : Nat} {o : Origin} (h : s.origin[t]? = some o) : s.peerOf t = o.peer := by
+  simp [St.peerOf, h]
+
+theorem origin_of_task {H : Hash} {cfg : Cfg} {s : St} (h : InvO H cfg s) {t : Nat} {tk : Task}
+    (ht : s.tasks[t]? = some tk) : ∃ o, s.origin[t]? = some o ∧ tk.serve = o.serve := by
+  have hl : t < s.origin.length := by rw [h.len]; exact lt_of_getElem?_eq_some ht
+  refine ⟨s.origin[t], List.getElem?_eq_getElem hl, ?_⟩
+  exact h.serve t tk _ ht (List.getElem?_eq_getElem hl)
+
+theorem InvO_step {H : Hash} {cfg : Cfg} {s s' : St} (l : Label) (h : InvO H cfg s)
+    (hs : step H cfg s l = some s') : InvO H cfg s' := by
+  cases l with
+  | serveEnter i =>
+    have hg := good_of_untraced hs (by intro e he; simp only [NewEv] at he; subst he; rfl)
+    obtain ⟨_, hh | hh | hh⟩ := step_serveEnter hs
+    · obtain ⟨_, rfl⟩ := hh; exact h.of_same rfl rfl rfl (tasks_same s) hg
+    · obtain ⟨_, _, rfl⟩ := hh; exact h.of_same rfl rfl rfl (tasks_same s) hg
+    · obtain ⟨_, _, rfl⟩ := hh; exact h.of_same rfl rfl rfl (tasks_same s) hg
+  | serveCount i =>
+    have hg := good_of_untraced hs (by intro e he; simp only [NewEv] at he)
+    obtain ⟨_, rfl⟩ := step_serveCount hs
+    exact h.of_same rfl rfl rfl (tasks_same s) hg
+  | serveRecv i peer d =>
+    obtain ⟨_, _, rfl⟩ := step_serveRecv hs
+    have hlen := h.len
+    have liftO : ∀ (t : Nat) (o : Origin), s.origin[t]? = some o → (s.origin ++ [(⟨i, peer, d⟩ : Origin)])[t]? = some o := by
+      intro t o hh
+      rw [List.getElem?_append_left (lt_of_getElem?_eq_some hh)]; exact hh
+    -- a position is old in both lists or new in both
+    have both : ∀ (t : Nat) (tk : Task) (o : Origin),
+        (s.tasks ++ [(⟨i, .spawned (classify H cfg peer d)⟩ : Task)])[t]? = some tk →
+        (s.origin ++ [(⟨i, peer, d⟩ : Origin)])[t]? = some o →
+        (s.tasks[t]? = some tk ∧ s.origin[t]? = some o) ∨
+        (tk = ⟨i, .spawned (classify H cfg peer d)⟩ ∧ o = ⟨i, peer, d⟩) := by
+      intro t tk o h1 h2
+      rcases getElem?_append_singleton_some h1 with a | ⟨a1, a2⟩ <;>
+      rcases getElem?_append_singleton_some h2 with b | ⟨b1, b2⟩
+      · exact Or.inl ⟨a, b⟩
+      · have := lt_of_getElem?_eq_some a; omega
+      · have := lt_of_getElem?_eq_some b; omega
+      · exact Or.inr ⟨a2.symm, b2.symm⟩
+    refine ⟨by simp [hlen], ?_, ?_, ?_, ?_, ?_, ?_, ?_, ?_⟩
+    · intro t tk o h1 h2
+      rcases both t tk o h1 h2 with ⟨a, b⟩ | ⟨rfl, rfl⟩
+      · exact h.serve t tk o a b
+      · rfl
+    · intro t i' f o h1 h2
+      rcases both t _ o h1 h2 with ⟨a, b⟩ | ⟨a, rfl⟩
+      · exact h.fate t i' f o a b
+      · cases a; rfl
+    · intro t i' k o h1 h2
+      rcases both t _ o h1 h2 with ⟨a, b⟩ | ⟨a, rfl⟩
+      · exact h.hand t i' k o a b
+      · cases a
+    · intro t i' k h1
+      rcases getElem?_append_singleton_some h1 with a | ⟨_, a⟩
+      · exact List.mem_append_left _ (h.inH t i' k a)
+      · cases a
+    · show (s.log ++ [Event.recv s.tasks.length i peer d]).filter isRecv = (s.origin ++ [(⟨i, peer, d⟩ : Origin)]).mapIdx recvOf
+      rw [List.filter_append, List.mapIdx_concat, ← h.recvs, hlen]
+      simp [isRecv, recvOf]
+    · intro t k hm
+      have hm' : Event.handlerStart t k ∈ s.log := by simpa using hm
+      obtain ⟨o, p, h1, h2, h3⟩ := h.hs t k hm'
+      exact ⟨o, p, liftO t o h1, h2, List.mem_append_left _ h3⟩
+    · intro t p pe c x hm
+      have hm' : Event.request t p pe c x ∈ s.log := by simpa using hm
+      obtain ⟨o, k, h1, h2, h3, h4, h5, h6⟩ := h.req t p pe c x hm'
+      exact ⟨o, k, liftO t o h1, h2, h3, h4, h5, List.mem_append_left _ h6⟩
+    · intro t c a hm
+      have hm' : Event.reply t c a ∈ s.log := by simpa using hm
+      obtain ⟨o, k, h1, h2, h3, h4⟩ := h.rep t c a hm'
+      exact ⟨o, k, liftO t o h1, h2, h3, List.mem_append_left _ h4⟩
+  | serveReadErr i =>
+    have hg := good_of_untraced hs (by intro e he; simp only [NewEv] at he; rcases he with rfl | rfl <;> rfl)
+    obtain ⟨_, _, _, rfl⟩ := step_serveReadErr hs
+    exact h.of_same (by simp) (by simp) (by simp) (by simpa using tasks_same s) hg
+  | serveReadFail i k =>
+    have hg := good_of_untraced hs (by intro e he; simp only [NewEv] at he; rcases he with rfl | rfl <;> rfl)
+    obtain ⟨_, hh | hh | hh⟩ := step_serveReadFail hs
+    · obtain ⟨_, rfl⟩ := hh; exact h.of_same (by simp) (by simp) (by simp) (by simpa using tasks_same s) hg
+    · obtain ⟨_, _, rfl⟩ := hh; exact h.of_same (by simp) (by simp) (by simp) (by simpa using tasks_same s) hg
+    · obtain ⟨_, _, rfl⟩ := hh; exact h
+  | taskRun t =>
+    obtain ⟨i, fate, ht, hh | hh⟩ := step_taskRun hs
+    · obtain ⟨key, p, rfl, hk, rfl⟩ := hh
+      obtain ⟨o, ho, hio⟩ := origin_of_task h ht
+      simp only at hio
+      have hf := h.fate t i _ o ht ho
+      have hpe := peerOf_eq ho
+      have htl := lt_of_getElem?_eq_some ht
+      have lift : ∀ e, e ∈ s.log → e ∈ s.log ++ [Event.request t p (s.peerOf t) (s.connOf.getD i 0) .server,
+          Event.handlerStart t key] := fun e he => List.mem_append_left _ he
+      have hreq : Event.request t p o.peer (s.connOf.getD o.serve 0) .server ∈
+          s.log ++ [Event.request t p (s.peerOf t) (s.connOf.getD i 0) .server, Event.handlerStart t key] := by
+        rw [hpe, hio]; simp
+      have hhs : Event.handlerStart t key ∈
+          s.log ++ [Event.request t p (s.peerOf t) (s.connOf.getD i 0) .server, Event.handlerStart t key] := by
+        simp
+      refine ⟨by simpa using h.len, ?_, ?_, ?_, ?_, ?_, ?_, ?_, ?_⟩
+      · intro t' tk o' h1 h2
+        rcases getElem?_set_some h1 with ⟨e, he, _⟩ | ⟨_, he⟩
+        · subst e; subst he; exact (h.serve t _ o' ht h2 : i = o'.serve)
+        · exact h.serve t' tk o' he h2
+      · intro t' i' f o' h1 h2
+        rcases getElem?_set_some h1 with ⟨_, he, _⟩ | ⟨_, he⟩
+        · cases he
+        · exact h.fate t' i' f o' he h2
+      · intro t' i' k o' h1 h2
+        rcases getElem?_set_some h1 with ⟨e, he, _⟩ | ⟨_, he⟩
+        · subst e; cases he
+          have : o' = o := by
+            have h2' : s.origin[t]? = some o' := h2
+            rw [ho] at h2'; exact (Option.some.inj h2').symm
+          subst this
+          exact ⟨p, hf.symm⟩
+        · exact h.hand t' i' k o' he h2
+      · intro t' i' k h1
+        rcases getElem?_set_some h1 with ⟨e, he, _⟩ | ⟨_, he⟩
+        · subst e; cases he; exact hhs
+        · exact lift _ (h.inH t' i' k he)
+      · show (s.log ++ [Event.request t p (s.peerOf t) (s.connOf.getD i 0) .server,
+            Event.handlerStart t key]).filter isRecv = s.origin.mapIdx recvOf
+        rw [List.filter_append, ← h.recvs]; simp [isRecv]
+      · intro t' k hm
+        simp only [List.mem_append, List.mem_cons, List.mem_nil_iff, or_false, reduceCtorEq, false_or] at hm
+        rcases hm with hm | hm
+        · obtain ⟨o', p', h1, h2, h3⟩ := h.hs t' k hm
+          exact ⟨o', p', h1, h2, lift _ h3⟩
+        · cases hm
+          exact ⟨o, p, ho, hf.symm, hreq⟩
+      · intro t' p' pe c x hm
+        simp only [List.mem_append, List.mem_cons, List.mem_nil_iff, or_false, reduceCtorEq, or_false] at hm
+        rcases hm with hm | hm
+        · obtain ⟨o', k, h1, h2, h3, h4, h5, h6⟩ := h.req t' p' pe c x hm
+          exact ⟨o', k, h1, h2, h3, h4, h5, lift _ h6⟩
+        · cases hm
+          exact ⟨o, key, ho, hf.symm, hpe, by rw [hio], rfl, hhs⟩
+      · intro t' c a hm
+        have hm' : Event.reply t' c a ∈ s.log := by simpa using hm
+        obtain ⟨o', k, h1, h2, h3, h4⟩ := h.rep t' c a hm'
+        exact ⟨o', k, h1, h2, h3, lift _ h4⟩
+    · obtain ⟨hne, rfl⟩ := hh
+      have hg : ∃ evs, (activeDone { s with tasks := s.tasks.set t ⟨i, .done⟩, log := s.log ++ [.dropped t] }).log
+          = s.log ++ evs ∧ ∀ e ∈ evs, GoodNew s e := by
+        obtain ⟨evs, hl, hn⟩ := step_log hs
+        refine ⟨evs, hl, fun e he => Or.inl ?_⟩
+        have := hn e he
+        simp only [NewEv] at this
+        rcases this with rfl | rfl | ⟨i', key, p, h1, h2, _⟩
+        · rfl
+        · rfl
+        · rw [ht] at h1; cases h1
+          exact absurd ⟨key, p, rfl, h2⟩ hne
+      exact h.of_same (by simp) (by simp) (by simp) (by simpa using tasks_set_done ht) hg
+  | taskFinish t =>
+    have hg := good_of_untraced hs (by intro e he; simp only [NewEv] at he; rcases he with rfl | rfl <;> rfl)
+    obtain ⟨i, key, ht, rfl⟩ := step_taskFinish hs
+    exact h.of_same (by simp) (by simp) (by simp) (by simpa using tasks_set_done ht) hg
+  | taskReply t =>
+    obtain ⟨i, key, ht, rfl⟩ := step_taskReply hs
+    obtain ⟨o, ho, hio⟩ := origin_of_task h ht
+    simp only at hio
+    refine h.of_same rfl rfl rfl (tasks_same s) ⟨[.reply t (s.connOf.getD i 0) (s.peerOf t)], rfl, ?_⟩
+    intro e he
+    right
+    refine ⟨t, s.connOf.getD i 0, s.peerOf t, o, key, by simpa using he, ho, peerOf_eq ho, by rw [hio], h.inH t i key ht⟩
+  | downEnter j =>
+    have hg := good_of_untraced hs (by
+      intro e he; simp only [NewEv] at he; rcases he with ⟨c, rfl⟩ | rfl <;> rfl)
+    obtain ⟨c, _, hh | hh⟩ := step_downEnter hs
+    · obtain ⟨_, rfl⟩ := hh; exact h.of_same rfl rfl rfl (tasks_same s) hg
+    · obtain ⟨_, rfl⟩ := hh
+      exact h.of_same (by simp) (by simp) (by simp) (by simpa using tasks_same s) hg
+  | downReturnNil j =>
+    have hg := good_of_untraced hs (by intro e he; simp only [NewEv] at he; subst he; rfl)
+    obtain ⟨c, _, _, rfl⟩ := step_downReturnNil hs
+    exact h.of_same rfl rfl rfl (tasks_same s) hg
+  | downReturnCtx j =>
+    have hg := good_of_untraced hs (by intro e he; simp only [NewEv] at he; subst he; rfl)
+    obtain ⟨_, rfl⟩ := step_downReturnCtx hs
+    exact h.of_same rfl rfl rfl (tasks_same s) hg
+  | ctxExpire j =>
+    have hg := good_of_untraced hs (by intro e he; simp only [NewEv] at he)
+    obtain ⟨pc, _, rfl⟩ := step_ctxExpire hs
+    exact h.of_same rfl rfl rfl (tasks_same s) hg
+
+theorem InvO_run (H : Hash) (cfg : Cfg) (conns : List Nat) (nD : Nat) (ls : List Label) :
+    InvO H cfg (run H cfg (initWith conns nD) ls) :=
+  run_preserves H cfg (InvO H cfg) (fun _ l _ h hs => InvO_step l h hs) ls _ (InvO_initWith H cfg conns nD)
+
+
+/-! ### counting over the trace: one handler start or one drop per goroutine, one goroutine per read -/
+
+def isHSof (t : Nat) : Event → Bool
+  | .handlerStart t' _ => t' == t
+  | _ => false
+def isDropOf (t : Nat) : Event → Bool
+  | .dropped t' => t' == t
+  | _ => false
+def isEndOf (t : Nat) : Event → Bool
+  | .handlerEnd t' => t' == t
+  | _ => false
+
+/-- how often the handler was started for goroutine `t` -/
+def hsCount (s : St) (t : Nat) : Nat := (s.log.filter (isHSof t)).length
+/-- how often goroutine `t` was dropped without the handler -/
+def dropCount (s : St) (t : Nat) : Nat := (s.log.filter (isDropOf t)).length
+/-- how often the handler of goroutine `t` returned -/
+def endCount (s : St) (t : Nat) : Nat := (s.log.filter (isEndOf t)).length
+
+def isCounted : Event → Bool
+  | .handlerStart .. | .dropped .. | .handlerEnd .. => true
+  | _ => false
+
+/-- what the three counts of a goroutine must be, given where it is -/
+def countSpec : Option TaskPc → Nat → Nat → Nat → Prop
+  | none, h, d, e => h = 0 ∧ d = 0 ∧ e = 0
+  | some (.spawned _), h, d, e => h = 0 ∧ d = 0 ∧ e = 0
+  | some (.inHandler _), h, d, e => h = 1 ∧ d = 0 ∧ e = 0
+  | some .done, h, d, e => h + d = 1 ∧ e = h
+
+def InvC (s : St) : Prop :=
+  ∀ t : Nat, countSpec (s.tasks[t]?.map (·.pc)) (hsCount s t) (dropCount s t) (endCount s t)
+
+theorem InvC_initWith (conns : List Nat) (nD : Nat) : InvC (initWith conns nD) := by
+  intro t; simp [initWith, countSpec, hsCount, dropCount, endCount]
+
+theorem filter_activeDone_log (s : St) (p : Event → Bool) (hp : p .doubleClose = false) :
+    (activeDone s).log.filter p = s.log.filter p := by
+  rcases activeDone_log s with h | h <;> rw [h]
+  simp [hp]
+
+theorem filter_uncounted {evs : List Event} (hn : ∀ e ∈ evs, isCounted e = false) (t : Nat) :
+    evs.filter (isHSof t) = [] ∧ evs.filter (isDropOf t) = [] ∧ evs.filter (isEndOf t) = [] := by
+  refine ⟨?_, ?_, ?_⟩ <;>
+  · apply List.filter_eq_nil_iff.mpr
+    intro e he
+    have := hn e he
+    cases e <;> simp [isCounted, isHSof, isDropOf, isEndOf] at this ⊢
+
+theorem InvC_same {s s' : St} (h : InvC s) (ht : s'.tasks = s.tasks)
+    (hl : ∃ evs, s'.log = s.log ++ evs ∧ ∀ e ∈ evs, isCounted e = false) : InvC s' := by
+  obtain ⟨evs, hl, hn⟩ := hl
+  intro t
+  obtain ⟨h1, h2, h3⟩ := filter_uncounted hn t
+  have := h t
+  simp only [hsCount, dropCount, endCount, ht, hl, List.filter_append, h1, h2, h3, List.append_nil] at this ⊢
+  exact this
+
+/-- labels whose step changes the task list -/
+def affectsTasks : Label → Bool
+  | .serveRecv .. | .taskRun _ | .taskFinish _ => true
+  | _ => false
+
+theorem step_tasks_eq {H : Hash} {cfg : Cfg} {s s' : St} {l : Label} (hl : affectsTasks l = false)
+    (hs : step H cfg s l = some s') : s'.tasks = s.tasks ∧ ∀ e, NewEv s l e → isCounted e = false := by
+  cases l with
+  | serveEnter i =>
+    refine ⟨?_, by intro e he; simp only [NewEv] at he; subst he; rfl⟩
+    obtain ⟨_, hh | hh | hh⟩ := step_serveEnter hs
+    · obtain ⟨_, rfl⟩ := hh; rfl
+    · obtain ⟨_, _, rfl⟩ := hh; rfl
+    · obtain ⟨_, _, rfl⟩ := hh; rfl
+  | serveCount i =>
+    obtain ⟨_, rfl⟩ := step_serveCount hs
+    exact ⟨rfl, by intro e he; simp only [NewEv] at he⟩
+  | serveRecv i peer d => cases hl
+  | serveReadErr i =>
+    obtain ⟨_, _, _, rfl⟩ := step_serveReadErr hs
+    exact ⟨by simp, by intro e he; simp only [NewEv] at he; rcases he with rfl | rfl <;> rfl⟩
+  | serveReadFail i k =>
+    refine ⟨?_, by intro e he; simp only [NewEv] at he; rcases he with rfl | rfl <;> rfl⟩
+    obtain ⟨_, hh | hh | hh⟩ := step_serveReadFail hs
+    · obtain ⟨_, rfl⟩ := hh; simp
+    · obtain ⟨_, _, rfl⟩ := hh; simp
+    · obtain ⟨_, _, rfl⟩ := hh; rfl
+  | taskRun t => cases hl
+  | taskFinish t => cases hl
+  | taskReply t =>
+    obtain ⟨i, key, _, rfl⟩ := step_taskReply hs
+    exact ⟨rfl, by intro e he; simp only [NewEv] at he; obtain ⟨_, _, _, rfl⟩ := he; rfl⟩
+  | downEnter j =>
+    refine ⟨?_, by intro e he; simp only [NewEv] at he; rcases he with ⟨c, rfl⟩ | rfl <;> rfl⟩
+    obtain ⟨c, _, hh | hh⟩ := step_downEnter hs
+    · obtain ⟨_, rfl⟩ := hh; rfl
+    · obtain ⟨_, rfl⟩ := hh; simp
+  | downReturnNil j =>
+    obtain ⟨c, _, _, rfl⟩ := step_downReturnNil hs
+    exact ⟨rfl, by intro e he; simp only [NewEv] at he; subst he; rfl⟩
+  | downReturnCtx j =>
+    obtain ⟨_, rfl⟩ := step_downReturnCtx hs
+    exact ⟨rfl, by intro e he; simp only [NewEv] at he; subst he; rfl⟩
+  | ctxExpire j =>
+    obtain ⟨pc, _, rfl⟩ := step_ctxExpire hs
+    exact ⟨rfl, by intro e he; simp only [NewEv] at he⟩
+
+theorem map_pc_set {tasks : List Task} {t t' : Nat} {b : Task} :
+    (tasks.set t b)[t']?.map (·.pc) =
+      if t = t' ∧ t < tasks.length then some b.pc else tasks[t']?.map (·.pc) := by
+  rw [List.getElem?_set]
+  by_cases h : t = t'
+  · subst h
+    by_cases h2 : t < tasks.length <;> simp [h2]
+  · simp [h]
+
+theorem InvC_step {H : Hash} {cfg : Cfg} {s s' : St} (l : Label) (h : InvC s)
+    (hs : step H cfg s l = some s') : InvC s' := by
+  by_cases hl : affectsTasks l = false
+  · obtain ⟨ht, hn⟩ := step_tasks_eq hl hs
+    obtain ⟨evs, he, hne⟩ := step_log hs
+    exact InvC_same h ht ⟨evs, he, fun e hm => hn e (hne e hm)⟩
+  · cases l with
+    | serveRecv i peer d =>
+      obtain ⟨_, _, rfl⟩ := step_serveRecv hs
+      intro t
+      have := h t
+      simp only [hsCount, dropCount, endCount, List.filter_append] at this ⊢
+      have e1 : [Event.recv s.tasks.length i peer d].filter (isHSof t) = [] := by simp [isHSof]
+      have e2 : [Event.recv s.tasks.length i peer d].filter (isDropOf t) = [] := by simp [isDropOf]
+      have e3 : [Event.recv s.tasks.length i peer d].filter (isEndOf t) = [] := by simp [isEndOf]
+      rw [e1, e2, e3]
+      simp only [List.append_nil]
+      by_cases hlt : t < s.tasks.length
+      · rw [List.getElem?_append_left hlt]; exact this
+      · have hnone : s.tasks[t]? = none := List.getElem?_eq_none (by omega)
+        rw [hnone] at this
+        simp only [Option.map_none, countSpec] at this
+        by_cases heq : t = s.tasks.length
+        · subst heq
+          simp only [List.getElem?_concat_length, Option.map_some, countSpec]
+          exact this
+        · have hn2 : (s.tasks ++ [(⟨i, .spawned (classify H cfg peer d)⟩ : Task)])[t]? = none := by
+            apply List.getElem?_eq_none
+            simp only [List.length_append, List.length_cons, List.length_nil]
+            omega
+          rw [hn2]
+          simp only [Option.map_none, countSpec]
+          assumption
+    | taskRun t =>
+      obtain ⟨i, fate, ht, hh | hh⟩ := step_taskRun hs
+      · obtain ⟨key, p, rfl, hk, rfl⟩ := hh
+        have htl := lt_of_getElem?_eq_some ht
+        intro t'
+        have := h t'
+        simp only [hsCount, dropCount, endCount, List.filter_append, map_pc_set] at this ⊢
+        have e2 : [Event.request t p (s.peerOf t) (s.connOf.getD i 0) .server, Event.handlerStart t key].filter
+            (isDropOf t') = [] := by simp [isDropOf]
+        have e3 : [Event.request t p (s.peerOf t) (s.connOf.getD i 0) .server, Event.handlerStart t key].filter
+            (isEndOf t') = [] := by simp [isEndOf]
+        rw [e2, e3]
+        by_cases htt : t = t'
+        · subst htt
+          have e1 : [Event.request t p (s.peerOf t) (s.connOf.getD i 0) .server, Event.handlerStart t key].filter
+              (isHSof t) = [Event.handlerStart t key] := by simp [isHSof]
+          rw [e1]
+          simp only [ht, Option.map_some, countSpec] at this
+          simp only [htl, and_self, if_true, countSpec, List.length_append, List.length_cons, List.length_nil]
+          omega
+        · have e1 : [Event.request t p (s.peerOf t) (s.connOf.getD i 0) .server, Event.handlerStart t key].filter
+              (isHSof t') = [] := by simp [isHSof, htt]
+          rw [e1]
+          simp only [htt, false_and, if_false, List.append_nil]
+          exact this
+      · obtain ⟨_, rfl⟩ := hh
+        have htl := lt_of_getElem?_eq_some ht
+        intro t'
+        have := h t'
+        simp only [hsCount, dropCount, endCount, activeDone_tasks, map_pc_set] at this ⊢
+        rw [filter_activeDone_log _ _ rfl, filter_activeDone_log _ _ rfl, filter_activeDone_log _ _ rfl]
+        simp only [List.filter_append]
+        have e1 : [Event.dropped t].filter (isHSof t') = [] := by simp [isHSof]
+        have e3 : [Event.dropped t].filter (isEndOf t') = [] := by simp [isEndOf]
+        rw [e1, e3]
+        by_cases htt : t = t'
+        · subst htt
+          have e2 : [Event.dropped t].filter (isDropOf t) = [Event.dropped t] := by simp [isDropOf]
+          rw [e2]
+          simp only [ht, Option.map_some, countSpec] at this
+          simp only [htl, and_self, if_true, countSpec, List.length_append, List.length_cons, List.length_nil]
+          omega
+        · have e2 : [Event.dropped t].filter (isDropOf t') = [] := by simp [isDropOf, htt]
+          rw [e2]
+          simp only [htt, false_and, if_false, List.append_nil]
+          exact this
+    | taskFinish t =>
+      obtain ⟨i, key, ht, rfl⟩ := step_taskFinish hs
+      have htl := lt_of_getElem?_eq_some ht
+      intro t'
+      have := h t'
+      simp only [hsCount, dropCount, endCount, activeDone_tasks, map_pc_set] at this ⊢
+      rw [filter_activeDone_log _ _ rfl, filter_activeDone_log _ _ rfl, filter_activeDone_log _ _ rfl]
+      simp only [List.filter_append]
+      have e1 : [Event.handlerEnd t].filter (isHSof t') = [] := by simp [isHSof]
+      have e2 : [Event.handlerEnd t].filter (isDropOf t') = [] := by simp [isDropOf]
+      rw [e1, e2]
+      by_cases htt : t = t'
+      · subst htt
+        have e3 : [Event.handlerEnd t].filter (isEndOf t) = [Event.handlerEnd t] := by simp [isEndOf]
+        rw [e3]
+        simp only [ht, Option.map_some, countSpec] at this
+        simp only [htl, and_self, if_true, countSpec, List.length_append, List.length_cons, List.length_nil]
+        omega
+      · have e3 : [Event.handlerEnd t].filter (isEndOf t') = [] := by simp [isEndOf, htt]
+        rw [e3]
+        simp only [htt, false_and, if_false, List.append_nil]
+        exact this
+    | _ => exact absurd rfl hl
+
+theorem InvC_run (H : Hash) (cfg : Cfg) (conns : List Nat) (nD : Nat) (ls : List Label) :
+    InvC (run H cfg (initWith conns nD) ls) :=
+  run_preserves H cfg InvC (fun _ l _ h hs => InvC_step l h hs) ls _ (InvC_initWith conns nD)
+
+/-- 1 for a `serveRecv` label, 0 otherwise -/
+def recvLabel : Label → Nat
+  | .serveRecv .. => 1
+  | _ => 0
+
+/-- the number of enabled `serveRecv` steps a schedule takes from `s` -/
+def recvSteps (H : Hash) (cfg : Cfg) : St → List Label → Nat
+  | _, [] => 0
+  | s, l :: ls =>
+    match step H cfg s l with
+    | some s' => recvLabel l + recvSteps H cfg s' ls
+    | none => recvSteps H cfg s ls
+
+theorem step_tasks_length {H : Hash} {cfg : Cfg} {s s' : St} {l : Label} (hs : step H cfg s l = some s') :
+    s'.tasks.length = s.tasks.length + recvLabel l := by
+  by_cases hl : affectsTasks l = false
+  · rw [(step_tasks_eq hl hs).1]
+    cases l <;> first | rfl | cases hl
+  · cases l with
+    | serveRecv i peer d => obtain ⟨_, _, rfl⟩ := step_serveRecv hs; simp [recvLabel]
+    | taskRun t =>
+      obtain ⟨i, fate, ht, hh | hh⟩ := step_taskRun hs
+      · obtain ⟨key, p, rfl, hk, rfl⟩ := hh; simp [recvLabel]
+      · obtain ⟨_, rfl⟩ := hh; simp [recvLabel]
+    | taskFinish t => obtain ⟨i, key, ht, rfl⟩ := step_taskFinish hs; simp [recvLabel]
+    | _ => exact absurd rfl hl
+
+theorem tasks_length_run (H : Hash) (cfg : Cfg) :
+    ∀ (ls : List Label) (s : St), (run H cfg s ls).tasks.length = s.tasks.length + recvSteps H cfg s ls := by
+  intro ls
+  induction ls with
+  | nil => intro s; rfl
+  | cons l ls ih =>
+    intro s
+    simp only [run, recvSteps]
+    cases hs : step H cfg s l with
+    | some s' => simp only []; rw [ih s', step_tasks_length hs]; omega
+    | none => exact ih s
+
+
+/-! ### C07: progress towards the drained state under EVERY schedule -/
+
+/-- labels whose step brings the server closer to the drained state: a Serve call returns, a datagram
+    goroutine runs its pipeline, a handler returns -/
+def isDrainLabel : Label → Bool
+  | .serveReadErr _ | .serveReadFail .. | .taskRun _ | .taskFinish _ => true
+  | _ => false
+
+@[simp] theorem spawnedTasks_serveLeave (s : St) (i : Nat) (r : ServeRes) :
+    spawnedTasks (serveLeave s i r) = spawnedTasks s := by simp [spawnedTasks]
+
+theorem drainMeasure_serveLeave {s : St} {i : Nat} (r : ServeRes) (hrun : s.serves[i]? = some .running) :
+    drainMeasure (serveLeave s i r) + 1 = drainMeasure s := by
+  have := countedServes_serveLeave r hrun
+  simp only [drainMeasure, liveTasks_serveLeave, spawnedTasks_serveLeave]
+  omega
+
+/-- Once Shutdown has been requested, in a state satisfying the invariant of the repaired server NO
+    step increases the drain measure, shutdown stays requested, the steps with a drain label strictly
+    decrease it and all others leave it unchanged (`serveRecv` is not enabled at all: the conn of a
+    running Serve call has been closed). -/
+theorem step_drain_le {H : Hash} {cfg : Cfg} {s s' : St} {l : Label} (h : InvF s) (hsd : s.sd = true)
+    (hs : step H cfg s l = some s') :
+    s'.sd = true ∧ drainMeasure s' ≤ drainMeasure s ∧
+      (isDrainLabel l = true → drainMeasure s' < drainMeasure s) ∧
+      (isDrainLabel l = false → drainMeasure s' = drainMeasure s) := by
+  cases l with
+  | serveEnter i =>
+    obtain ⟨hns, hh | hh | hh⟩ := step_serveEnter hs
+    · obtain ⟨_, rfl⟩ := hh
+      have hc := counted_set (.returned .errShutdown) hns
+      simp at hc
+      have hm : drainMeasure { s with serves := s.serves.set i (.returned .errShutdown), log := s.log ++ [.serveReturned i] } = drainMeasure s := by
+        simp only [drainMeasure, countedServes, liveTasks, spawnedTasks] at hc ⊢
+        omega
+      exact ⟨hsd, by omega, (by intro hx; cases hx), fun _ => hm⟩
+    · rw [hh.1] at hsd; cases hsd
+    · rw [hh.1] at hsd; cases hsd
+  | serveCount i =>
+    obtain ⟨hr, _⟩ := step_serveCount hs
+    exact absurd hr (h.noReg i)
+  | serveRecv i peer d =>
+    obtain ⟨hrun, hcl, _⟩ := step_serveRecv hs
+    have hlp : s.listeners.getD (s.connOf.getD i 0) 0 > 0 := by
+      rw [h.cnt]; exact runOnL_pos hrun
+    have := (h.sdc hsd).2 _ hlp
+    omega
+  | serveReadErr i =>
+    obtain ⟨hrun, _, _, rfl⟩ := step_serveReadErr hs
+    have := drainMeasure_serveLeave .errShutdown hrun
+    exact ⟨by simpa using hsd, by omega, fun _ => by omega, by intro hx; cases hx⟩
+  | serveReadFail i k =>
+    obtain ⟨hrun, hh | hh | hh⟩ := step_serveReadFail hs
+    · obtain ⟨_, rfl⟩ := hh
+      have := drainMeasure_serveLeave .errShutdown hrun
+      exact ⟨by simpa using hsd, by omega, fun _ => by omega, by intro hx; cases hx⟩
+    · rw [hh.1] at hsd; cases hsd
+    · rw [hh.1] at hsd; cases hsd
+  | taskRun t =>
+    obtain ⟨i, fate, ht, hh | hh⟩ := step_taskRun hs
+    · obtain ⟨key, p, rfl, hk, rfl⟩ := hh
+      have hc := live_set ⟨i, .inHandler key⟩ ht
+      have hc2 := spawned_set ⟨i, .inHandler key⟩ ht
+      simp at hc hc2
+      have hm : drainMeasure { s with tasks := s.tasks.set t ⟨i, .inHandler key⟩, inflight := s.inflight.set i (key :: s.inflight.getD i []), log := s.log ++ [.request t p (s.peerOf t) (s.connOf.getD i 0) .server, .handlerStart t key] } + 1 = drainMeasure s := by
+        simp only [drainMeasure, countedServes, liveTasks, spawnedTasks] at *
+        omega
+      exact ⟨hsd, by omega, fun _ => by omega, by intro hx; cases hx⟩
+    · obtain ⟨_, rfl⟩ := hh
+      have hc := live_set ⟨i, .done⟩ ht
+      have hc2 := spawned_set ⟨i, .done⟩ ht
+      simp at hc hc2
+      have hm : drainMeasure (activeDone { s with tasks := s.tasks.set t ⟨i, .done⟩, log := s.log ++ [.dropped t] }) + 2 = drainMeasure s := by
+        simp only [drainMeasure, countedServes_activeDone, liveTasks_activeDone, spawnedTasks_activeDone]
+        simp only [countedServes, liveTasks, spawnedTasks] at *
+        omega
+      exact ⟨by simpa using hsd, by omega, fun _ => by omega, by intro hx; cases hx⟩
+  | taskFinish t =>
+    obtain ⟨i, key, ht, rfl⟩ := step_taskFinish hs
+    have hc := live_set ⟨i, .done⟩ ht
+    have hc2 := spawned_set ⟨i, .done⟩ ht
+    simp at hc hc2
+    have hm : drainMeasure (activeDone { s with tasks := s.tasks.set t ⟨i, .done⟩, inflight := s.inflight.set i ((s.inflight.getD i []).erase key), log := s.log ++ [.handlerEnd t] }) + 1 = drainMeasure s := by
+      simp only [drainMeasure, countedServes_activeDone, liveTasks_activeDone, spawnedTasks_activeDone]
+      simp only [countedServes, liveTasks, spawnedTasks] at *
+      omega
+    exact ⟨by simpa using hsd, by omega, fun _ => by omega, by intro hx; cases hx⟩
+  | taskReply t =>
+    obtain ⟨i, key, _, rfl⟩ := step_taskReply hs
+    exact ⟨hsd, Nat.le_refl _, (by intro hx; cases hx), fun _ => rfl⟩
+  | downEnter j =>
+    obtain ⟨c, _, hh | hh⟩ := step_downEnter hs
+    · obtain ⟨_, rfl⟩ := hh
+      exact ⟨hsd, Nat.le_refl _, (by intro hx; cases hx), fun _ => rfl⟩
+    · rw [hh.1] at hsd; cases hsd
+  | downReturnNil j =>
+    obtain ⟨c, _, _, rfl⟩ := step_downReturnNil hs
+    exact ⟨hsd, Nat.le_refl _, (by intro hx; cases hx), fun _ => rfl⟩
+  | downReturnCtx j =>
+    obtain ⟨_, rfl⟩ := step_downReturnCtx hs
+    exact ⟨hsd, Nat.le_refl _, (by intro hx; cases hx), fun _ => rfl⟩
+  | ctxExpire j =>
+    obtain ⟨pc, _, rfl⟩ := step_ctxExpire hs
+    exact ⟨hsd, Nat.le_refl _, (by intro hx; cases hx), fun _ => rfl⟩
+
+/-- while the server is not drained, a step with a drain label is enabled -/
+theorem drain_label_enabled {H : Hash} {cfg : Cfg} {s : St} (h : InvF s) (hsd : s.sd = true)
+    (hm : countedServes s + liveTasks s ≠ 0) :
+    ∃ l s', isDrainLabel l = true ∧ step H cfg s l = some s' ∧ s'.sd = true ∧ drainMeasure s' < drainMeasure s := by
+  obtain ⟨l, s', hs, hsd', hlt⟩ := drain_progress (H := H) (cfg := cfg) h hsd hm
+  refine ⟨l, s', ?_, hs, hsd', hlt⟩
+  cases hd : isDrainLabel l with
+  | true => rfl
+  | false =>
+    have := (step_drain_le h hsd hs).2.2.2 hd
+    omega
+
+/-- the number of enabled steps with a drain label that a schedule takes from `s` -/
+def drainSteps (H : Hash) (cfg : Cfg) : St → List Label → Nat
+  | _, [] => 0
+  | s, l :: ls =>
+    match step H cfg s l with
+    | some s' => (if isDrainLabel l then 1 else 0) + drainSteps H cfg s' ls
+    | none => drainSteps H cfg s ls
+
+/-- under EVERY schedule: shutdown stays requested, the measure never grows, and every drain step
+    the schedule takes is paid for by the measure -/
+theorem drain_bound (H : Hash) (cfg : Cfg) (hv : cfg.variant = .fixed) :
+    ∀ (ls : List Label) (s : St), InvF s → s.sd = true →
+      (run H cfg s ls).sd = true ∧ drainSteps H cfg s ls + drainMeasure (run H cfg s ls) ≤ drainMeasure s := by
+  intro ls
+  induction ls with
+  | nil => intro s _ hsd; exact ⟨hsd, by simp [drainSteps, run]⟩
+  | cons l ls ih =>
+    intro s h hsd
+    simp only [run, drainSteps]
+    cases hs : step H cfg s l with
+    | none => exact ih s h hsd
+    | some s' =>
+      simp only []
+      obtain ⟨hsd', hle, hlt, _⟩ := step_drain_le h hsd hs
+      obtain ⟨h1, h2⟩ := ih s' (InvF_step hv l h hs) hsd'
+      refine ⟨h1, ?_⟩
+      cases hd : isDrainLabel l with
+      | true => have := hlt hd; simp only [if_true]; omega
+      | false => simp only [Bool.false_eq_true, if_false]; omega
+
+theorem Drained_counts {s : St} (h : Drained s) : countedServes s = 0 ∧ liveTasks s = 0 := by
+  constructor
+  · simp only [countedServes, List.length_eq_zero_iff, List.filter_eq_nil_iff]
+    intro pc hpc
+    have := h.serves pc hpc
+    cases pc <;> simp [terminalS] at this ⊢
+  · simp only [liveTasks, List.length_eq_zero_iff, List.filter_eq_nil_iff]
+    intro t ht
+    simp [h.tasks t ht]
+
+/-! ### C07: Shutdown calls only move forward -/
+
+def downRank : DownPc → Nat
+  | .notStarted => 0
+  | .waiting => 1
+  | .returned _ => 2
+
+theorem rank_set {downs : List Down} {j : Nat} {d0 d1 : Down} (h0 : downs[j]? = some d0)
+    (hr : downRank d0.pc ≤ downRank d1.pc) :
+    ∀ (j' : Nat) (d : Down), downs[j']? = some d →
+      ∃ d', (downs.set j d1)[j']? = some d' ∧ downRank d.pc ≤ downRank d'.pc := by
+  intro j' d hd
+  rw [List.getElem?_set]
+  by_cases hjj : j = j'
+  · subst hjj
+    rw [h0] at hd; cases hd
+    simp only [if_true, lt_of_getElem?_eq_some h0]
+    exact ⟨d1, rfl, hr⟩
+  · simp only [hjj, if_false]
+    exact ⟨d, hd, Nat.le_refl _⟩
+
+/-- a Shutdown call never moves backwards: not started → waiting → returned -/
+theorem step_down_rank {H : Hash} {cfg : Cfg} {s s' : St} {l : Label} (hs : step H cfg s l = some s') :
+    ∀ (j : Nat) (d : Down), s.downs[j]? = some d →
+      ∃ d', s'.downs[j]? = some d' ∧ downRank d.pc ≤ downRank d'.pc := by
+  have same : s'.downs = s.downs → ∀ (j : Nat) (d : Down), s.downs[j]? = some d →
+      ∃ d', s'.downs[j]? = some d' ∧ downRank d.pc ≤ downRank d'.pc := by
+    intro he j d hd; rw [he]; exact ⟨d, hd, Nat.le_refl _⟩
+  cases l with
+  | serveEnter i =>
+    obtain ⟨_, hh | hh | hh⟩ := step_serveEnter hs
+    · obtain ⟨_, rfl⟩ := hh; exact same rfl
+    · obtain ⟨_, _, rfl⟩ := hh; exact same rfl
+    · obtain ⟨_, _, rfl⟩ := hh; exact same rfl
+  | serveCount i => obtain ⟨_, rfl⟩ := step_serveCount hs; exact same rfl
+  | serveRecv i peer d => obtain ⟨_, _, rfl⟩ := step_serveRecv hs; exact same rfl
+  | serveReadErr i => obtain ⟨_, _, _, rfl⟩ := step_serveReadErr hs; exact same (by simp)
+  | serveReadFail i k =>
+    obtain ⟨_, hh | hh | hh⟩ := step_serveReadFail hs
+    · obtain ⟨_, rfl⟩ := hh; exact same (by simp)
+    · obtain ⟨_, _, rfl⟩ := hh; exact same (by simp)
+    · obtain ⟨_, _, rfl⟩ := hh; exact same rfl
+  | taskRun t =>
+    obtain ⟨i, fate, ht, hh | hh⟩ := step_taskRun hs
+    · obtain ⟨key, p, rfl, hk, rfl⟩ := hh; exact same rfl
+    · obtain ⟨_, rfl⟩ := hh; exact same (by simp)
+  | taskFinish t => obtain ⟨i, key, ht, rfl⟩ := step_taskFinish hs; exact same (by simp)
+  | taskReply t => obtain ⟨i, key, _, rfl⟩ := step_taskReply hs; exact same rfl
+  | downEnter j =>
+    obtain ⟨c, hj, hh | hh⟩ := step_downEnter hs
+    · obtain ⟨_, rfl⟩ := hh
+      exact rank_set hj (by simp [downRank])
+    · obtain ⟨_, rfl⟩ := hh
+      simp only [activeDone_downs]
+      exact rank_set hj (by simp [downRank])
+  | downReturnNil j =>
+    obtain ⟨c, hj, _, rfl⟩ := step_downReturnNil hs
+    exact rank_set hj (by simp [downRank])
+  | downReturnCtx j =>
+    obtain ⟨hj, rfl⟩ := step_downReturnCtx hs
+    exact rank_set hj (by simp [downRank])
+  | ctxExpire j =>
+    obtain ⟨pc, hj, rfl⟩ := step_ctxExpire hs
+    exact rank_set hj (Nat.le_refl _)
+
+theorem run_down_rank (H : Hash) (cfg : Cfg) :
+    ∀ (ls : List Label) (s : St) (j : Nat) (d : Down), s.downs[j]? = some d →
+      ∃ d', (run H cfg s ls).downs[j]? = some d' ∧ downRank d.pc ≤ downRank d'.pc := by
+  intro ls
+  induction ls with
+  | nil => intro s j d hd; exact ⟨d, hd, Nat.le_refl _⟩
+  | cons l ls ih =>
+    intro s j d hd
+    simp only [run]
+    cases hs : step H cfg s l with
+    | none => exact ih s j d hd
+    | some s' =>
+      obtain ⟨d1, h1, r1⟩ := step_down_rank hs j d hd
+      obtain ⟨d2, h2, r2⟩ := ih s' j d1 h1
+      exact ⟨d2, h2, by omega⟩
+
+
+/-! ### which step a traced event comes from; the conns never change -/
+
+theorem newEv_recv {s : St} {l : Label} {t i peer : Nat} {d : Bytes} (h : NewEv s l (.recv t i peer d)) :
+    l = .serveRecv i peer d ∧ t = s.tasks.length := by
+  cases l <;> simp only [NewEv] at h
+  case serveRecv i' peer' d' => cases h; exact ⟨rfl, rfl⟩
+  case serveEnter => cases h
+  case serveReadErr => rcases h with h | h <;> cases h
+  case serveReadFail => rcases h with h | h <;> cases h
+  case taskRun => rcases h with h | h | ⟨_, _, _, _, _, h | h⟩ <;> cases h
+  case taskFinish => rcases h with h | h <;> cases h
+  case taskReply => obtain ⟨_, _, _, h⟩ := h; cases h
+  case downEnter => rcases h with ⟨_, h⟩ | h <;> cases h
+  case downReturnNil => cases h
+  case downReturnCtx => cases h
+
+theorem newEv_handlerStart {s : St} {l : Label} {t : Nat} {key : Key} (h : NewEv s l (.handlerStart t key)) :
+    l = .taskRun t ∧ ∃ i p, s.tasks[t]? = some (⟨i, .spawned (.handle key p)⟩ : Task) ∧ key ∉ s.inflight.getD i [] := by
+  cases l <;> simp only [NewEv] at h
+  case taskRun t' =>
+    rcases h with h | h | ⟨i, k, p, h1, h2, h | h⟩
+    · cases h
+    · cases h
+    · cases h
+    · cases h; exact ⟨rfl, i, p, h1, h2⟩
+  case serveRecv => cases h
+  case serveEnter => cases h
+  case serveReadErr => rcases h with h | h <;> cases h
+  case serveReadFail => rcases h with h | h <;> cases h
+  case taskFinish => rcases h with h | h <;> cases h
+  case taskReply => obtain ⟨_, _, _, h⟩ := h; cases h
+  case downEnter => rcases h with ⟨_, h⟩ | h <;> cases h
+  case downReturnNil => cases h
+  case downReturnCtx => cases h
+
+theorem newEv_reply {s : St} {l : Label} {t conn addr : Nat} (h : NewEv s l (.reply t conn addr)) :
+    l = .taskReply t ∧ ∃ i key, s.tasks[t]? = some (⟨i, .inHandler key⟩ : Task) ∧
+      conn = s.connOf.getD i 0 ∧ addr = s.peerOf t := by
+  cases l <;> simp only [NewEv] at h
+  case taskReply t' =>
+    obtain ⟨i, key, h1, h2⟩ := h
+    cases h2; exact ⟨rfl, i, key, h1, rfl, rfl⟩
+  case taskRun => rcases h with h | h | ⟨_, _, _, _, _, h | h⟩ <;> cases h
+  case serveRecv => cases h
+  case serveEnter => cases h
+  case serveReadErr => rcases h with h | h <;> cases h
+  case serveReadFail => rcases h with h | h <;> cases h
+  case taskFinish => rcases h with h | h <;> cases h
+  case downEnter => rcases h with ⟨_, h⟩ | h <;> cases h
+  case downReturnNil => cases h
+  case downReturnCtx => cases h
+
+theorem step_connOf {H : Hash} {cfg : Cfg} {s s' : St} {l : Label} (hs : step H cfg s l = some s') :
+    s'.connOf = s.connOf := by
+  cases l with
+  | serveEnter i =>
+    obtain ⟨_, hh | hh | hh⟩ := step_serveEnter hs
+    · obtain ⟨_, rfl⟩ := hh; rfl
+    · obtain ⟨_, _, rfl⟩ := hh; rfl
+    · obtain ⟨_, _, rfl⟩ := hh; rfl
+  | serveCount i => obtain ⟨_, rfl⟩ := step_serveCount hs; rfl
+  | serveRecv i peer d => obtain ⟨_, _, rfl⟩ := step_serveRecv hs; rfl
+  | serveReadErr i => obtain ⟨_, _, _, rfl⟩ := step_serveReadErr hs; simp
+  | serveReadFail i k =>
+    obtain ⟨_, hh | hh | hh⟩ := step_serveReadFail hs
+    · obtain ⟨_, rfl⟩ := hh; simp
+    · obtain ⟨_, _, rfl⟩ := hh; simp
+    · obtain ⟨_, _, rfl⟩ := hh; rfl
+  | taskRun t =>
+    obtain ⟨i, fate, ht, hh | hh⟩ := step_taskRun hs
+    · obtain ⟨key, p, rfl, hk, rfl⟩ := hh; rfl
+    · obtain ⟨_, rfl⟩ := hh; simp
+  | taskFinish t => obtain ⟨i, key, ht, rfl⟩ := step_taskFinish hs; simp
+  | taskReply t => obtain ⟨i, key, _, rfl⟩ := step_taskReply hs; rfl
+  | downEnter j =>
+    obtain ⟨c, hj, hh | hh⟩ := step_downEnter hs
+    · obtain ⟨_, rfl⟩ := hh; rfl
+    · obtain ⟨_, rfl⟩ := hh; simp
+  | downReturnNil j => obtain ⟨c, hj, _, rfl⟩ := step_downReturnNil hs; rfl
+  | downReturnCtx j => obtain ⟨hj, rfl⟩ := step_downReturnCtx hs; rfl
+  | ctxExpire j => obtain ⟨pc, hj, rfl⟩ := step_ctxExpire hs; rfl
+
+theorem connOf_run (H : Hash) (cfg : Cfg) (conns : List Nat) (nD : Nat) (ls : List Label) :
+    (run H cfg (initWith conns nD) ls).connOf = conns :=
+  run_preserves H cfg (fun s => s.connOf = conns) (fun _ _ _ h hs => (step_connOf hs).trans h) ls _ rfl
+
+/-- the `recv` events of the log are exactly the origins, position by position -/
+theorem recv_mem_iff {H : Hash} {cfg : Cfg} {s : St} (h : InvO H cfg s) (t i peer : Nat) (d : Bytes) :
+    Event.recv t i peer d ∈ s.log ↔ s.origin[t]? = some ⟨i, peer, d⟩ := by
+  have e : Event.recv t i peer d ∈ s.log ↔ Event.recv t i peer d ∈ s.log.filter isRecv := by
+    rw [List.mem_filter]; simp [isRecv]
+  rw [e, h.recvs, List.mem_mapIdx]
+  constructor
+  · rintro ⟨t', ht', he⟩
+    simp only [recvOf, Event.recv.injEq] at he
+    obtain ⟨rfl, h1, h2, h3⟩ := he
+    rw [List.getElem?_eq_getElem ht']
+    congr 1
+    cases hh : s.origin[t'] with
+    | mk a b c => rw [hh] at h1 h2 h3; simp only at h1 h2 h3; subst h1; subst h2; subst h3; rfl
+  · intro ho
+    have hl := lt_of_getElem?_eq_some ho
+    refine ⟨t, hl, ?_⟩
+    have := List.getElem?_eq_getElem hl
+    rw [ho] at this
+    have e2 : s.origin[t] = ⟨i, peer, d⟩ := (Option.some.inj this).symm
+    rw [e2]; rfl
+
+theorem two_le_length_of_mem_ne {α} {l : List α} {a b : α} (ha : a ∈ l) (hb : b ∈ l) (hne : a ≠ b) :
+    2 ≤ l.length := by
+  induction l with
+  | nil => cases ha
+  | cons x xs ih =>
+    rcases List.mem_cons.mp ha with rfl | ha' <;> rcases List.mem_cons.mp hb with rfl | hb'
+    · exact absurd rfl hne
+    · have := List.length_pos_of_mem hb'; simp only [List.length_cons]; omega
+    · have := List.length_pos_of_mem ha'; simp only [List.length_cons]; omega
+    · have := ih ha' hb'; simp only [List.length_cons]; omega
+
+theorem hsCount_pos {s : St} {t : Nat} {key : Key} (h : Event.handlerStart t key ∈ s.log) : 1 ≤ hsCount s t :=
+  List.length_pos_of_mem (List.mem_filter.mpr ⟨h, by simp [isHSof]⟩)
+
+theorem InvC_hsCount_le {s : St} (h : InvC s) (t : Nat) : hsCount s t ≤ 1 := by
+  have := h t
+  cases hh : s.tasks[t]?.map (·.pc) with
+  | none => rw [hh] at this; simp only [countSpec] at this; omega
+  | some pc =>
+    rw [hh] at this
+    cases pc <;> simp only [countSpec] at this <;> omega
+
+theorem hs_key_unique {s : St} (h : InvC s) {t : Nat} {k k' : Key} (h1 : Event.handlerStart t k ∈ s.log)
+    (h2 : Event.handlerStart t k' ∈ s.log) : k = k' := by
+  by_cases hk : k = k'
+  · exact hk
+  · have m1 : Event.handlerStart t k ∈ s.log.filter (isHSof t) := List.mem_filter.mpr ⟨h1, by simp [isHSof]⟩
+    have m2 : Event.handlerStart t k' ∈ s.log.filter (isHSof t) := List.mem_filter.mpr ⟨h2, by simp [isHSof]⟩
+    have := two_le_length_of_mem_ne m1 m2 (by intro he; cases he; exact hk rfl)
+    have := InvC_hsCount_le h t
+    simp only [hsCount] at this
+    omega
+
+/-- a second datagram for the non-vacuity examples of C06: peer 5 -/
+theorem classify_example5 :
+    classify (fun _ => zeros 16) { secretOf := fun _ => .secret [1] } 5 ([1, 7, 0, 20] ++ zeros 16)
+      = .handle (5, 7) ⟨1, 7, zeros 16, [1], []⟩ := by
+  simp [classify, isAuthenticRequest, requestClass, parse, lengthField, be16, zeros, parseAttrs,
+    maxPacketLength]
 
 end RV.Server
